@@ -229,6 +229,23 @@ def crashRun (c : Content) : List FsOp → FS → Nat → Option Nat → FS
     let r := execOp c fs op
     if continues (polOf op) r.2 then crashRun c rest r.1 k j else r.1
 
+/-- a step whose write FAILS after `j` bytes (the file was created/truncated first); other steps as usual -/
+def execFail (c : Content) (fs : FS) (j : Nat) : FsOp → FS × Err
+  | .write n _ => (fs.set n (some (c.take j)), .other)
+  | op => execOp c fs op
+
+/-- A save in which step number `w` fails if it is a write (disk full, quota, I/O error, a value the
+encoder refuses); what happens next is decided by the step's error policy, the remaining steps run
+normally.  No kill. -/
+def failRun (c : Content) : List FsOp → FS → Nat → Nat → FS
+  | [], fs, _, _ => fs
+  | op :: rest, fs, 0, j =>
+    let r := execFail c fs j op
+    if continues (polOf op) r.2 then crashRun c rest r.1 rest.length none else r.1
+  | op :: rest, fs, w + 1, j =>
+    let r := execOp c fs op
+    if continues (polOf op) r.2 then failRun c rest r.1 w j else r.1
+
 /-- a save that is not interrupted -/
 def saveAll (c : Content) (ops : List FsOp) (fs : FS) : FS := crashRun c ops fs ops.length none
 
@@ -444,6 +461,7 @@ structure KIn where
   k : Nat
   j : Option Nat
   crashed : Bool
+  fail : Bool := false      -- not a kill: the write at step `k` fails after `j` quarters of its bytes
 
 structure KOut where
   exit : Nat
@@ -461,16 +479,17 @@ def parseK : P (KIn × KOut) := do
   P.kw "pre"; let pre ← P.nat
   P.kw "crash"
   let c ← P.tok
-  let (k, j, crashed) ← match c with
-    | "none" => pure (1000, none, false)
-    | "at" => do let k ← P.nat; let _ ← P.tok; pure (k, none, true)
-    | "inw" => do let k ← P.nat; let q ← P.nat; pure (k, some q, true)
+  let (k, j, crashed, fail) ← match c with
+    | "none" => pure (1000, none, false, false)
+    | "at" => do let k ← P.nat; let _ ← P.tok; pure (k, none, true, false)
+    | "inw" => do let k ← P.nat; let q ← P.nat; pure (k, some q, true, false)
+    | "fail" => do let k ← P.nat; let q ← P.nat; pure (k, some q, false, true)
     | _ => P.fail s!"bad crash spec {c}"
   P.kw "OUT"
   P.kw "exit"; let ex ← P.nat
   P.kw "fs"; let fm ← P.tok; let ft ← P.tok; let fb ← P.tok
   P.kw "su"; let e ← P.bool; let af ← P.tok; let rd ← P.tok
-  pure ({ main := m, bak := b, tmp := t, pre, k, j, crashed },
+  pure ({ main := m, bak := b, tmp := t, pre, k, j, crashed, fail },
         { exit := ex, fsMain := fm, fsTmp := ft, fsBak := fb, existed := e, after := af, read := rd })
 
 def runK (i : KIn) (o : KOut) : Verdict :=
@@ -479,7 +498,7 @@ def runK (i : KIn) (o : KOut) : Verdict :=
     let fs0 : FS := { main := m, tmp := t, bak := b }
     let fs1 := preSaves saveOps i.pre 1 fs0
     let new := newC (i.pre + 1)
-    let fs2 := crashRun new saveOps fs1 i.k i.j
+    let fs2 := if i.fail then failRun new saveOps fs1 i.k (i.j.getD 0) else crashRun new saveOps fs1 i.k i.j
     let su := startup fs2
     -- oracle on the implementation's observation
     let oldL := labelOf fs1.main     -- the complete old version (the previous save's, or the initial file)
@@ -487,7 +506,7 @@ def runK (i : KIn) (o : KOut) : Verdict :=
     if !o.existed then
       .viol s!"C16:crash-no-config no configuration file after a kill of saveState (directory: main={o.fsMain} tmp={o.fsTmp} bak={o.fsBak}); start-up created an empty one"
     else if !(o.read == oldL || o.read == newL) || !(o.after == oldL || o.after == newL) then
-      .viol s!"C16:crash-config-damaged after a kill of saveState start-up read {o.read} (file {o.after}), neither the complete old ({oldL}) nor the complete new ({newL}) version"
+      .viol s!"C16:crash-config-damaged after {if i.fail then "a FAILED write in" else "a kill of"} saveState start-up read {o.read} (file {o.after}), neither the complete old ({oldL}) nor the complete new ({newL}) version"
     else
       let ms := s!"{labelOf fs2.main} {labelOf fs2.tmp} {labelOf fs2.bak} su {if su.1 then 1 else 0} {labelOf su.2.2.main} {labelOf (some su.2.1)}"
       let is := s!"{o.fsMain} {o.fsTmp} {o.fsBak} su {if o.existed then 1 else 0} {o.after} {o.read}"
@@ -495,7 +514,8 @@ def runK (i : KIn) (o : KOut) : Verdict :=
       else if i.crashed != (o.exit == 77) then .diff s!"crash case: requested kill={i.crashed} but exit status {o.exit}"
       else
         .ok (["K"] ++ (if i.crashed && i.k > 0 && i.k < saveOps.length then ["crash-mid"] else [])
-          ++ (if i.j.isSome then ["inwrite"] else [])
+          ++ (if i.j.isSome && !i.fail then ["inwrite"] else [])
+          ++ (if i.fail then ["write-fails"] else [])
           ++ (if !i.crashed then ["complete"] else [])
           ++ (if i.pre > 0 then ["after-saves"] else [])
           ++ (if i.tmp != "-" then ["stale-tmp"] else [])
